@@ -34,8 +34,13 @@ RULES = {
     "function is memoised (functools.cache / lru_cache / cached_property) over a graph, node or value argument - such a cache is "
     "keyed by object identity and never invalidated, so the captured set of a nested body is frozen at the first extraction and a "
     "second extraction after an edit selects too much (spurious boundary error) or too little (clone fails)",
+    "R8": "a boundary name means a value of the graph extracted from: the table through which the extractor resolves inputs / outputs given "
+    "as strings is built from that graph alone - every call of a name-to-value mapping helper that has an option to descend into "
+    "subgraphs switches it off (`include_subgraphs=False`); with the helper's default, a name is matched against every nested body "
+    "first-come-first-served, so a name shared by a value inside an If body and a later top-level value selects the nested one and the "
+    "extraction by name differs from the extraction by object (KeyError, or a spurious `not properly bounded`)",
 }
-FLOORS = {"R1": 1, "R2": 4, "R3": 3, "R4": 2, "R5": 1, "R6": 1, "R7": 1}
+FLOORS = {"R1": 1, "R2": 4, "R3": 3, "R4": 2, "R5": 1, "R6": 1, "R7": 1, "R8": 1}
 EXPLANATION = (
     "Return-value provenance of extract(), sibling agreement of the two subgraph-attribute branches, push/pop pairing "
     "and dominance of the boundary validation over the result."
@@ -311,8 +316,42 @@ def rule_r6(ctx, rule="R6", consequence="an output that is an uncovered source v
     ctx.require(n >= 1, "lookup of the graph outputs in Cloner.clone_graph not found")
 
 
+def rule_r8(ctx):
+    repo = ctx.repo
+    m = repo.module(EX)
+    n = 0
+    for f in repo.live(m.all_funcs):
+        if isinstance(f.node, ast.Lambda):
+            continue
+        for c in calls_in(f):
+            d = dotted_of(c.func) or ""
+            g = None
+            for cand in ctx.typer.type_of(f, c.func):
+                if cand[0] == "func":
+                    g = cand[1]
+            if g is None or isinstance(g.node, ast.Lambda):
+                continue
+            a = g.node.args
+            opts = {x.arg: dflt for x, dflt in zip(a.kwonlyargs, a.kw_defaults)} | dict(zip([x.arg for x in a.args][len(a.args) - len(a.defaults):], a.defaults))
+            sub = [k for k in opts if "subgraph" in k.lower()]
+            if not sub or not any(w in norm(g.node.returns or ast.Constant(value="")) for w in ("dict", "Mapping")):
+                continue
+            n += 1
+            kw = next((k.value for k in c.keywords if k.arg == sub[0]), None)
+            eff = kw if kw is not None else opts[sub[0]]
+            ok = isinstance(eff, ast.Constant) and eff.value is False
+            ctx.check("R8", f"{f.local}: {d.split('.')[-1]}(…) resolves names among the values of the given graph only", ok, f, c,
+                      f"`{norm(c)[:70]}` builds the name table with `{sub[0]}` {'= ' + norm(eff) if eff is not None else 'unset'}: names of values inside nested bodies take part, first occurrence "
+                      "winning - a boundary given by name can resolve to a value local to an If / Loop body instead of the graph's own value of that name",
+                      how="calls in the extractor to mapping helpers with a subgraph option: the option is the constant False (explicitly or by default)",
+                      construct=f"name table of {f.local} includes subgraphs")
+    ctx.require(n >= 1, "the extractor builds no name table through a mapping helper with a subgraph option")
+
+
 def run(ctx):
     from ..shared import rule_s14
+
+    rule_r8(ctx)
 
     rule_s14(ctx, "R7", lambda name: name.startswith(("onnx_ir._convenience", "onnx_ir.analysis", "onnx_ir.traversal")) or name == "onnx_ir._cloner",
              "the second extraction from an edited graph works with the captured values of the first")
